@@ -26,6 +26,10 @@ fn parse_both(rep: &mut Report, bytes: &[u8], what: &str) -> Option<Result<Parse
             let r = match which {
                 0 => parse_obj(b),
                 1 => read_obj(&b[..]),
+                // Read::bytes() on a raw reader asks for one byte at a time;
+                // through a BufReader (what load_obj uses) the reader really
+                // delivers 1..7-byte chunks
+                2 if seed % 2 == 0 => read_obj(std::io::BufReader::with_capacity(16, Chunky::new(&b, seed, None))),
                 2 => read_obj(Chunky::new(&b, seed, None)),
                 _ => {
                     let path = scratch_path("in.obj");
@@ -35,7 +39,12 @@ fn parse_both(rep: &mut Report, bytes: &[u8], what: &str) -> Option<Result<Parse
                     } else {
                         let r = load_obj(&path);
                         let _ = std::fs::remove_file(&path);
-                        r
+                        match r {
+                            // the scratch file went away or cannot be read:
+                            // the environment's fault, not the library's
+                            Err(e) if format!("{e}").contains("I/O") || format!("{e:?}").starts_with("Io") => parse_obj(b),
+                            r => r,
+                        }
                     }
                 }
             };
@@ -97,7 +106,31 @@ fn parse_both(rep: &mut Report, bytes: &[u8], what: &str) -> Option<Result<Parse
 
 /// A coordinate literal together with the f32 it denotes (known a priori).
 fn coord(rng: &mut Rng) -> (String, f32) {
-    match rng.below(8) {
+    match rng.below(10) {
+        8 => {
+            // spellings of the same number that differ only in syntax
+            let k = rng.int(0, 999) as f64;
+            let neg = rng.bool();
+            let (lit, v): (String, f64) = match rng.below(9) {
+                0 => ("0".into(), 0.0),
+                1 => ("0.0".into(), 0.0),
+                2 => ("0e0".into(), 0.0),
+                3 => (format!("{k}."), k),                  // trailing point
+                4 => (format!(".{:03}", k as u32), k / 1000.0), // leading point
+                5 => (format!("{k}.e1"), k * 10.0),
+                6 => (format!("{k}e+2"), k * 100.0),
+                7 => (format!("{k}E-02"), k / 100.0),         // zero-padded exponent (as in the library's docs)
+                _ => (format!("00{k}.50"), k + 0.5),         // leading zeros
+            };
+            // −0 keeps its sign bit
+            (if neg { format!("-{lit}") } else if rng.chance(1, 8) { format!("+{lit}") } else { lit }, if neg { -(v as f32) } else { v as f32 })
+        }
+        9 => {
+            // exponent notation over the whole finite range, subnormals included
+            let v = rng.any_f32();
+            let v = if v.is_finite() { v } else { -2.5e-40 };
+            (format!("{v:e}"), v)
+        }
         6 => {
             // Long decimals right next to the midpoint of two adjacent f32
             // values (what an exporter printing doubles produces): the
@@ -193,8 +226,13 @@ fn ws(rng: &mut Rng, s: &mut String) {
 }
 
 fn wellformed_case(rng: &mut Rng, rep: &mut Report, idx: u64) {
-    let nv = rng.below(if idx % 5 == 0 { 200 } else { 24 }) as usize;
+    // now and then a mesh whose indices do not fit 8 or 16 bits
+    let big_mesh = idx % 2000 == 777;
+    let nv = if big_mesh { rng.pick(&[256usize, 257, 65535, 65536, 70000]) } else { rng.below(if idx % 5 == 0 { 200 } else { 24 }) as usize };
     let nf = if nv == 0 { 0 } else { rng.below(40) as usize };
+    if big_mesh {
+        rep.count("faithful.meshes_with_indices_beyond_8_or_16_bits");
+    }
     let nt = rng.below(6) as usize;
     let nn = rng.below(6) as usize;
     let mut verts: Vec<[f32; 3]> = vec![];
@@ -219,7 +257,7 @@ fn wellformed_case(rng: &mut Rng, rep: &mut Report, idx: u64) {
     let mut faces: Vec<[usize; 3]> = vec![];
     let mut flines: Vec<String> = vec![];
     for _ in 0..nf {
-        let f = [rng.usize(nv), rng.usize(nv), rng.usize(nv)];
+        let f = if big_mesh { [nv - 1, rng.usize(nv), if rng.bool() { 0 } else { nv - 2 }] } else { [rng.usize(nv), rng.usize(nv), rng.usize(nv)] };
         faces.push(f);
         // index form: v, v/vt, v//vn, v/vt/vn (only forms whose extra indices exist)
         let form = match (nt > 0, nn > 0) {
@@ -289,7 +327,7 @@ fn wellformed_case(rng: &mut Rng, rep: &mut Report, idx: u64) {
         while rng.chance(1, 6) {
             match rng.below(3) {
                 0 => {}
-                1 => text.push_str("# a comment v 1 2 3 f 9 9 9"),
+                1 => text.push_str(if rng.chance(1, 3) { "# caf\u{1} \u{2}\u{3} v 1 2 3" } else { "# a comment v 1 2 3 f 9 9 9" }),
                 _ => text.push_str("   #indented comment"),
             }
             text.push_str(if crlf { "\r\n" } else { "\n" });
@@ -330,7 +368,16 @@ fn wellformed_case(rng: &mut Rng, rep: &mut Report, idx: u64) {
             text.pop();
         }
     }
-    let bytes = text.into_bytes();
+    // comments as exporters write them: UTF-8, Latin-1, stray control bytes
+    let mut bytes: Vec<u8> = Vec::with_capacity(text.len());
+    for b in text.into_bytes() {
+        match b {
+            1 => bytes.extend_from_slice(b"\xc3\xa9"),
+            2 => bytes.push(0xff),
+            3 => bytes.push(0x00),
+            _ => bytes.push(b),
+        }
+    }
     let mut hs = Hasher::new();
     hs.bytes(&bytes);
     rep.case(hs.get(), nv > 0);
@@ -378,6 +425,133 @@ const SEEDS: &[&[u8]] = &[
     b"f 1 2\nv 0 0 0\n",
 ];
 
+/// A small independent reader of the OBJ subset the property covers. It is
+/// deliberately strict: it returns Some(mesh) only for input that is
+/// well-formed by a conservative grammar (lines separated by LF with an
+/// optional CR; blank lines; `#` comment lines; `v x y z`, `vt u v [w]`,
+/// `vn x y z`, `f a b c` with a | a/b | a//c | a/b/c, every index ≥ 1 and
+/// within the counts of the whole file; numbers in plain or exponent
+/// notation). For anything else it says None and nothing is judged.
+fn reference_obj(bytes: &[u8]) -> Option<Parsed> {
+    fn num(t: &str) -> Option<f32> {
+        let b = t.as_bytes();
+        let mut i = 0;
+        if i < b.len() && (b[i] == b'-' || b[i] == b'+') {
+            i += 1;
+        }
+        let d0 = i;
+        while i < b.len() && b[i].is_ascii_digit() {
+            i += 1;
+        }
+        let mut digits = i - d0;
+        if i < b.len() && b[i] == b'.' {
+            i += 1;
+            let f0 = i;
+            while i < b.len() && b[i].is_ascii_digit() {
+                i += 1;
+            }
+            digits += i - f0;
+        }
+        if digits == 0 {
+            return None;
+        }
+        if i < b.len() && (b[i] == b'e' || b[i] == b'E') {
+            i += 1;
+            if i < b.len() && (b[i] == b'-' || b[i] == b'+') {
+                i += 1;
+            }
+            let e0 = i;
+            while i < b.len() && b[i].is_ascii_digit() {
+                i += 1;
+            }
+            if i == e0 {
+                return None;
+            }
+        }
+        if i != b.len() {
+            return None;
+        }
+        t.parse::<f32>().ok()
+    }
+    let text = std::str::from_utf8(bytes).ok()?;
+    if !text.is_ascii() {
+        return None;
+    }
+    let (mut v, mut f): (Vec<[f32; 3]>, Vec<[usize; 3]>) = (vec![], vec![]);
+    let (mut nt, mut nn) = (0usize, 0usize);
+    let (mut max_t, mut max_n) = (0usize, 0usize);
+    for line in text.split('\n') {
+        let line = line.strip_suffix('\r').unwrap_or(line);
+        if line.contains('\r') || line.contains('\x0b') || line.contains('\x0c') {
+            return None;
+        }
+        let mut it = line.split([' ', '\t']).filter(|t| !t.is_empty());
+        let Some(item) = it.next() else { continue };
+        if item.starts_with('#') {
+            continue;
+        }
+        let rest: Vec<&str> = it.collect();
+        match item {
+            "v" | "vn" => {
+                if rest.len() != 3 {
+                    return None;
+                }
+                let c = [num(rest[0])?, num(rest[1])?, num(rest[2])?];
+                if item == "v" {
+                    v.push(c);
+                } else {
+                    nn += 1;
+                }
+            }
+            "vt" => {
+                if rest.len() != 2 {
+                    return None;
+                }
+                num(rest[0])?;
+                num(rest[1])?;
+                nt += 1;
+            }
+            "f" => {
+                if rest.len() != 3 {
+                    return None;
+                }
+                let mut tri = [0usize; 3];
+                for (k, t) in rest.iter().enumerate() {
+                    let parts: Vec<&str> = t.split('/').collect();
+                    let idx = |p: &str| -> Option<usize> {
+                        if p.is_empty() || p.len() > 9 || !p.bytes().all(|c| c.is_ascii_digit()) {
+                            return None;
+                        }
+                        let i: usize = p.parse().ok()?;
+                        (i >= 1).then_some(i)
+                    };
+                    match parts.as_slice() {
+                        [a] => tri[k] = idx(a)?,
+                        [a, b] => {
+                            tri[k] = idx(a)?;
+                            max_t = max_t.max(idx(b)?);
+                        }
+                        [a, b, c] => {
+                            tri[k] = idx(a)?;
+                            if !b.is_empty() {
+                                max_t = max_t.max(idx(b)?);
+                            }
+                            max_n = max_n.max(idx(c)?);
+                        }
+                        _ => return None,
+                    }
+                }
+                f.push(tri);
+            }
+            _ => return None,
+        }
+    }
+    if f.iter().flatten().any(|&i| i > v.len()) || max_t > nt || max_n > nn {
+        return None;
+    }
+    Some((v, f.into_iter().map(|t| t.map(|i| i - 1)).collect()))
+}
+
 fn totality_case(rng: &mut Rng, rep: &mut Report, idx: u64) {
     let bytes: Vec<u8> = match rng.below(10) {
         0 => {
@@ -412,9 +586,13 @@ fn totality_case(rng: &mut Rng, rep: &mut Report, idx: u64) {
     hs.bytes(&bytes);
     match parse_both(rep, &bytes, "arbitrary / mutated bytes") {
         None => rep.case(hs.get(), true),
-        Some(Err(_)) => {
+        Some(Err(e)) => {
             rep.case(hs.get(), false);
             rep.count("totality.rejected_with_error");
+            // mutated input that is still well-formed must still be read
+            if reference_obj(&bytes).is_some() {
+                rep.violation("obj.wellformed_rejected", format!("input that the reference reader finds well-formed is rejected: {e}"), Json::obj().set("input", show(&bytes)));
+            }
         }
         Some(Ok((v, f))) => {
             rep.case(hs.get(), !f.is_empty());
@@ -422,7 +600,17 @@ fn totality_case(rng: &mut Rng, rep: &mut Report, idx: u64) {
             if !f.is_empty() {
                 rep.count("totality.parsed_ok_with_faces");
             }
-            let _ = v;
+            // … and read faithfully
+            if let Some((rv, rf)) = reference_obj(&bytes) {
+                rep.count("totality.cross_checked_with_reference_reader");
+                if rv.len() != v.len() || rv.iter().zip(&v).any(|(a, b)| a.map(f32::to_bits) != b.map(f32::to_bits)) {
+                    rep.violation("obj.vertices_differ", format!("mutated but well-formed input: parsed {} vertices {:?}…, the reference reader finds {} {:?}…", v.len(), &v[..v.len().min(3)], rv.len(), &rv[..rv.len().min(3)]), Json::obj().set("input", show(&bytes)));
+                } else if rf != f {
+                    rep.violation("obj.faces_differ", format!("mutated but well-formed input: parsed faces {:?}…, the reference reader finds {:?}…", &f[..f.len().min(3)], &rf[..rf.len().min(3)]), Json::obj().set("input", show(&bytes)));
+                }
+            } else {
+                rep.count("totality.accepted_but_outside_the_reference_grammar(unjudged)");
+            }
         }
     }
     if idx < 2 {
@@ -430,17 +618,23 @@ fn totality_case(rng: &mut Rng, rep: &mut Report, idx: u64) {
     }
 }
 
+/// Pinned witness: no panic, and — these inputs refer to vertices or
+/// attributes that do not exist — an error, not a mesh.
 fn pin(bytes: &[u8]) -> Result<(), String> {
     let mut r2 = Report::new();
-    parse_both(&mut r2, bytes, "pin");
+    let r = parse_both(&mut r2, bytes, "pin");
     match r2.violations.values().next() {
-        None => Ok(()),
+        None => match r {
+            Some(Ok((v, f))) => Err(format!("accepted as a mesh of {} vertices and faces {:?}", v.len(), f)),
+            _ => Ok(()),
+        },
         Some(v) => Err(v.firsts[0].detail.clone()),
     }
 }
 
 pub fn run(cfg: &Cfg, rep: &mut Report) {
     rep.rule = "faithfulness: random meshes (0..200 vertices, 0..40 triangles) printed with random indentation, blank lines, comments, CR LF, the four index forms and faces before/after/interleaved with vertices; coordinates are literals whose f32 value is known a priori (dyadic rationals in plain and exponent notation, shortest round-trip Display of random f32 bit patterns); totality: mutated seed files with a dictionary of hostile tokens (index 0, negatives, 2^32, 2^64, missing fields, non-ASCII), truncations at every offset, raw random bytes; non-trivial = parses to a non-empty mesh or provokes a violation; distinct by hash of the bytes".into();
+    rep.assumptions.push("well-formed text uses LF or CR LF line ends and spaces or tabs between fields (what exporters write); the statement names blank lines, comments and indentation, and a reader that split on single spaces only would be reported by this monitor".into());
     rep.assumptions.push("generated faces are triangles; the parser reads the first three indices of longer faces, which the property does not cover".into());
     rep.pin("F4a.index_zero", pin(b"v 0 0 0\nv 1 0 0\nv 0 1 0\nf 0 1 2\n"));
     rep.pin("F4a.texcoord_index_zero", pin(b"v 0 0 0\nvt 0 0\nf 1/0 1/1 1/1\n"));
@@ -458,4 +652,6 @@ pub fn run(cfg: &Cfg, rep: &mut Report) {
     rep.floor("reader_faults.hard_failure_midstream", 100_000);
     rep.floor("reader_faults.short_reads_with_eintr", 100_000);
     rep.floor("reader_faults.load_obj_from_file", 10_000);
+    rep.floor("totality.cross_checked_with_reference_reader", 5_000);
+    rep.floor("faithful.meshes_with_indices_beyond_8_or_16_bits", 5);
 }
